@@ -17,6 +17,9 @@ pub struct TextReader<R> {
     pending: [u8; MIN_DECODE_BUF],
     pending_pos: usize,
     pending_len: usize,
+    // A read failed. The decoder does not survive that (it drops the bytes it had already taken
+    // from the stream while looking for a byte order mark), so reading on would skip text.
+    failed: bool,
 }
 
 // The decoder loses part of its output (e.g. the replacement character for a sequence that is
@@ -36,15 +39,11 @@ where
             pending: [0; MIN_DECODE_BUF],
             pending_pos: 0,
             pending_len: 0,
+            failed: false,
         }
     }
-}
 
-impl<R> Read for TextReader<R>
-where
-    R: Read,
-{
-    fn read(&mut self, buf: &mut [u8]) -> io::Result<usize> {
+    fn read_decoded(&mut self, buf: &mut [u8]) -> io::Result<usize> {
         if self.pending_pos == self.pending_len {
             if buf.len() >= MIN_DECODE_BUF {
                 return self.inner.read(buf);
@@ -57,6 +56,24 @@ where
         buf[..n].copy_from_slice(&self.pending[self.pending_pos..self.pending_pos + n]);
         self.pending_pos += n;
         Ok(n)
+    }
+}
+
+impl<R> Read for TextReader<R>
+where
+    R: Read,
+{
+    fn read(&mut self, buf: &mut [u8]) -> io::Result<usize> {
+        if self.failed {
+            return Err(io::Error::new(io::ErrorKind::Other, "a previous read of this text failed"));
+        }
+        let res = self.read_decoded(buf);
+        if let Err(err) = &res {
+            if err.kind() != io::ErrorKind::Interrupted {
+                self.failed = true;
+            }
+        }
+        res
     }
 }
 
